@@ -391,6 +391,10 @@ func (t *Tree) internalDelete(subpath []string, condition func(interface{}) bool
 			}
 			return len(t.leafBranch.(branch)) == 0, allLeaves
 		default:
+			if len(subpath) != 0 {
+				// The subpath continues beyond this leaf: nothing matches, as in Query.
+				return false, nil
+			}
 			if condition(t.leafBranch) {
 				// The second parameter is an empty path that will be filled as recursion
 				// unwinds for this leaf that will be deleted in its parent.
